@@ -23,8 +23,14 @@ fn call(ctx: &mut Ctx, what: &str, x: Dd, f: fn(TwoFloat) -> TwoFloat) -> Option
 // ------------------------------------------------------------------ C14
 
 fn c14_exp(ctx: &mut Ctx) {
-    let c = ctx.weighted(&[6, 4, 3, 2, 1]);
+    let c = if maybe_constant(ctx, 30, false).is_some() { 5 } else { ctx.weighted(&[6, 4, 3, 2, 1]) };
     let x = match c {
+        5 => {
+            let k = constant_operands();
+            let d = k[ctx.below(19) as usize].1;
+            let m = [1.0, -1.0, 2.0, -2.0, 64.0, 0.5][ctx.below(6) as usize];
+            Dd::new(d.hi * m, d.lo * m)
+        }
         0 => {
             // table stratification: x = y/2 + n/128 + delta
             ctx.label("arg:table-grid");
@@ -58,6 +64,7 @@ fn c14_exp(ctx: &mut Ctx) {
     note_dd(ctx, "x", x);
     let Some(r) = call(ctx, "exp", x, inh::exp) else { return };
     note_dd(ctx, "exp", r);
+    crate::p_forms::routes_agree(ctx, "exp", x, r);
     let v = x.big();
     if v.is_zero() {
         check!(ctx, r.hi == 1.0 && r.lo == 0.0, "exp(0) = {}", r.show());
@@ -117,6 +124,7 @@ fn c14_exp2(ctx: &mut Ctx) {
     note_dd(ctx, "x", x);
     let Some(r) = call(ctx, "exp2", x, inh::exp2) else { return };
     note_dd(ctx, "exp2", r);
+    crate::p_forms::routes_agree(ctx, "exp2", x, r);
     let v = x.big();
     if v <= Big::from_i64(-1080) {
         ctx.label("underflow-region");
@@ -148,6 +156,7 @@ fn c14_exp2_int(ctx: &mut Ctx) {
     let x = Dd::new(k as f64, 0.0);
     let Some(r) = call(ctx, "exp2", x, inh::exp2) else { return };
     check!(ctx, r.hi == pow2_f64(k) && r.lo == 0.0, "exp2({k}) = {} is not exactly 2^{k}", r.show());
+    crate::p_forms::routes_agree(ctx, "exp2", x, r);
     ctx.set_nontrivial(true);
 }
 
@@ -172,6 +181,7 @@ fn c14_exp_m1(ctx: &mut Ctx) {
     note_dd(ctx, "x", x);
     let Some(r) = call(ctx, "exp_m1", x, inh::exp_m1) else { return };
     note_dd(ctx, "exp_m1", r);
+    crate::p_forms::routes_agree(ctx, "exp_m1", x, r);
     let v = x.big();
     if v.is_zero() {
         check!(ctx, both_zero(r), "exp_m1(0) = {}", r.show());
@@ -197,7 +207,7 @@ fn c14_powf(ctx: &mut Ctx) {
     let c = ctx.weighted(&[8, 3, 3, 2, 2]);
     // base
     let mut x = match ctx.weighted(&[5, 3, 3]) {
-        0 => dd_exp(ctx, -30, 29, false),
+        0 => dd_closed(ctx, -30, 30, false),
         1 => {
             ctx.label("base:near-1");
             let hi = pivot_near(ctx, 1.0);
@@ -355,10 +365,13 @@ fn c14_powf_sign(ctx: &mut Ctx) {
             let m = (1 + ctx.below(8)) as f64;
             let hi = m * pow2_f64(k) * if ctx.flag() { -1.0 } else { 1.0 };
             let lo = ctx.range(-9, 9) as f64;
+            let same_sign_one = 1.0f64.copysign(hi);
             if hi + lo == hi {
                 Dd::new(hi, lo)
+            } else if hi + same_sign_one == hi {
+                Dd::new(hi, same_sign_one)
             } else {
-                Dd::new(hi, 1.0)
+                Dd::new(hi, 0.0)
             }
         }
     };
@@ -418,11 +431,56 @@ pub fn c14() -> Property {
 // ------------------------------------------------------------------ C15
 
 /// positive argument over [2^-1000, 2^960], dense around 1
+/// x = f(g + delta) rounded to the nearest double-double, with the low word then nudged by a few
+/// ulps: pre-images of the points where the forward function used inside the Newton iteration
+/// switches (exp: multiples of 1/4 and 1/128, exp2: half-integers)
+fn preimage(ctx: &mut Ctx, which: u32) -> Dd {
+    ctx.label("arg:pre-image-of-inner-switch");
+    let h = oracle::Hp::new(256);
+    let quarter = |ctx: &mut Ctx, lo: i64, hi: i64| -> Big {
+        let k = ctx.range(lo, hi);
+        let base = if ctx.flag() { Big::from_i64(k).mul_pow2(-2) } else { Big::from_i64(k).mul_pow2(-7) };
+        let d = match ctx.below(4) {
+            0 => Big::zero(),
+            1 => Big::pow2(-ctx.range(40, 110)),
+            2 => Big::pow2(-ctx.range(40, 110)).neg(),
+            _ => Big::pow2(-ctx.range(10, 40)).neg(),
+        };
+        base.add(&d)
+    };
+    let v = match which {
+        0 => h.exp(&quarter(ctx, -2700, 2600)),                 // ln, log10: x = e^(k/4 + d)
+        1 => h.exp2(&Big::from_i64(ctx.range(-1990, 1900)).mul_pow2(-1).add(&Big::pow2(-ctx.range(30, 100)).mul(&Big::from_i64(ctx.range(-1, 1))))), // log2: 2^(k/2 + d)
+        _ => h.expm1(&quarter(ctx, -60, 2600)),                  // ln_1p: e^(k/4 + d) - 1
+    };
+    let d = crate::p_conv::dd_from_big(&v);
+    let lo = step(d.lo, ctx.range(-3, 3));
+    if lo.is_finite() && d.hi + lo == d.hi {
+        Dd::new(d.hi, lo)
+    } else {
+        d
+    }
+}
+
 fn log_arg(ctx: &mut Ctx) -> Dd {
-    let c = ctx.weighted(&[5, 5, 2, 2]);
+    if let Some(c) = maybe_constant(ctx, 30, false) {
+        if c.hi > 0.0 {
+            return c;
+        }
+    }
+    let c = ctx.weighted(&[5, 5, 2, 2, 2]);
     match c {
+        4 => {
+            let w = ctx.below(2) as u32;
+            let d = preimage(ctx, w);
+            if d.hi > 0.0 && d.hi >= pow2_f64(-1000) && d.hi <= pow2_f64(960) {
+                d
+            } else {
+                Dd::new(2.718281828459045, 0.0)
+            }
+        }
         0 => {
-            let d = dd_exp(ctx, -1000, 959, false);
+            let d = dd_closed(ctx, -1000, 960, false);
             if d.hi < 0.0 {
                 d.neg()
             } else {
@@ -482,6 +540,7 @@ fn c15_logs(ctx: &mut Ctx) {
     note_dd(ctx, "x", x);
     let Some(r) = call(ctx, name, x, f) else { return };
     note_dd(ctx, "result", r);
+    crate::p_forms::routes_agree(ctx, name, x, r);
     let v = x.big();
     if v.sign() <= 0 {
         ctx.label("domain-error");
@@ -521,6 +580,7 @@ fn c15_log2_pow2(ctx: &mut Ctx) {
     let x = Dd::new(pow2_f64(k), 0.0);
     let Some(r) = call(ctx, "log2", x, inh::log2) else { return };
     check!(ctx, r.valid() && r.big() == Big::from_i64(k), "log2(2^{k}) = {} is not exactly {k}", r.show());
+    crate::p_forms::routes_agree(ctx, "log2", x, r);
     ctx.set_nontrivial(true);
 }
 
@@ -542,8 +602,16 @@ fn c15_log_base(ctx: &mut Ctx) {
 }
 
 fn c15_ln_1p(ctx: &mut Ctx) {
-    let c = ctx.weighted(&[4, 3, 3, 4, 2, 1, 1]);
+    let c = ctx.weighted(&[4, 3, 3, 4, 2, 1, 1, 2]);
     let x = match c {
+        7 => {
+            let d = preimage(ctx, 2);
+            if d.hi > -1.0 && d.hi <= pow2_f64(960) && d.hi != 0.0 {
+                d
+            } else {
+                Dd::new(1.718281828459045, 0.0)
+            }
+        }
         0 => arg(ctx, &Strata { pivots: &[], emin: -1000, emax: -8, umax: 0.00390625, positive_only: false }),
         1 => {
             // [0.75, 2^960]
@@ -609,6 +677,7 @@ fn c15_ln_1p(ctx: &mut Ctx) {
     note_dd(ctx, "x", x);
     let Some(r) = call(ctx, "ln_1p", x, inh::ln_1p) else { return };
     note_dd(ctx, "ln_1p", r);
+    crate::p_forms::routes_agree(ctx, "ln_1p", x, r);
     let v = x.big();
     if v.is_zero() {
         check!(ctx, both_zero(r), "ln_1p(0) = {}", r.show());
